@@ -84,17 +84,53 @@ func c08QuickBatches() [][]uint32 {
 
 const c08ThoroughUnits = 4096 // 2^32 / 2^20
 
+// Families of the quick tier that are generated arithmetically (no table):
+// (A) every sign x exponent x top 9 mantissa bits x low 3 mantissa bits (2.1 M patterns: rounding of the
+// 4-byte form at every magnitude and leading mantissa), 512 units of one batch;
+// (B) for the 34 exponents 2^-8 .. 2^25 (where the short real and coordinate forms live and end) and both
+// signs, every pattern whose low 7 mantissa bits are zero (4.5 M patterns: every multiple of 1/512 up to
+// 128, every half integer up to 2^15), 68 units of 16 batches.
+const c08FamA = 512
+const c08FamB = 68
+const c08FamUnits = c08FamA + c08FamB
+
+func (st *c08State) family(i int) {
+	buf := make([]uint32, 0, c08Batch)
+	if i < c08FamA {
+		s, e := uint32(i>>8), uint32(i&255)
+		for hi := uint32(0); hi < 512; hi++ {
+			for lo := uint32(0); lo < 8; lo++ {
+				buf = append(buf, s<<31|e<<23|hi<<14|lo)
+			}
+		}
+		st.batch(buf)
+		return
+	}
+	i -= c08FamA
+	s, e := uint32(i&1), uint32(119+i>>1)
+	for m := uint32(0); m < 1<<16; m++ {
+		buf = append(buf, s<<31|e<<23|m<<7)
+		if len(buf) == c08Batch {
+			if st.w.Expired() {
+				return
+			}
+			st.batch(buf)
+			buf = buf[:0]
+		}
+	}
+}
+
 func init() {
 	mc.Register(&mc.Check{
 		ID:    "C08",
 		Level: "exploration",
-		Rule: "engine P: float32 bit patterns (quick: class-complete set = every sign x exponent x 21 boundary mantissas, every multiple of 1/64 and 1/128 in [-128,128], every u/15120, k/120, integer <=16386, powers of two, each with +-1 ulp neighbours; thorough: all 2^32) " +
+		Rule: "engine P: float32 bit patterns (quick: class-complete set = every sign x exponent x 21 boundary mantissas, every multiple of 1/64 and 1/128 in [-128,128], every u/15120, k/120, integer <=16386, powers of two, each with +-1 ulp neighbours, plus two arithmetic families: every sign x exponent x top 9 x low 3 mantissa bits, and every pattern with the low 7 mantissa bits zero for the exponents 2^-8..2^25; thorough: all 2^32) " +
 			"through every public route that writes a number (SetLOD real, path coordinates at high and low resolution, arc rotation angle, SetNReg shortest-of-three, viewBox) and directly through the five unexported encoders (generated overlay); " +
 			"each encoded form is measured and decoded by the reference codec and by the real decoder, then re-encoded (idempotence). Naturals: boundary classes (thorough: all 2^30). Decoder side: all 128 one-byte, 16384 two-byte and 32768 strided four-byte patterns of each kind as instruction operands, as arc flags and as the four numbers of a viewBox chunk, every truncation of both. Metadata naturals: every palette length 1..64 x colour width 1..4 x {default, custom viewBox} (chunk lengths 3..258 cross the 1-byte/2-byte natural boundary). " +
 			"distinct = hash of (route, form length, exactness class); non-trivial = value not exactly representable in a short form (4-byte form with rounding)",
 		Assumptions: []string{"linux/amd64 float-to-integer conversion semantics", "ulp distances measured on float32 bit patterns"},
 		Units: func(tier string) int {
-			n := len(c08QuickBatches()) + 4
+			n := len(c08QuickBatches()) + 4 + c08FamUnits
 			if tier == "thorough" {
 				n += c08ThoroughUnits + 1024
 			}
@@ -130,8 +166,11 @@ func c08Run(w *mc.W, u int) {
 		st.nregTies()
 	case u == nq+3:
 		st.chunkLengths()
-	case u < nq+4+c08ThoroughUnits:
-		base := uint32(u-nq-4) << 20
+	case u < nq+4+c08FamUnits:
+		st.lean = true
+		st.family(u - nq - 4)
+	case u < nq+4+c08FamUnits+c08ThoroughUnits:
+		base := uint32(u-nq-4-c08FamUnits) << 20
 		st.lean = true
 		buf := make([]uint32, c08Batch)
 		for off := uint32(0); off < 1<<20; off += c08Batch {
@@ -144,7 +183,7 @@ func c08Run(w *mc.W, u int) {
 			st.batch(buf)
 		}
 	default:
-		st.naturals(true, u-(nq+4+c08ThoroughUnits))
+		st.naturals(true, u-(nq+4+c08FamUnits+c08ThoroughUnits))
 	}
 }
 
